@@ -98,12 +98,83 @@ pub fn j2() -> Design {
     d
 }
 
+/// N1: collisions on which a map-order leak would show. Several mixed contour+component glyphs
+/// (each derives an `X.0` glyph when prefer-simple is off: their relative order), several name
+/// records with the same string (font-specific ids spelling the axis name, an instance named like
+/// the family, style = family), equal kerning values, several non-default masters and a glyph
+/// with a sparse layer.
+pub fn n1() -> Design {
+    use dgen::plist::Plist;
+    let mut d = Design::skeleton(
+        "Fam",
+        vec![Axis::new("wght", "Weight", 300.0, 400.0, 700.0)],
+        vec![vec![400.0], vec![300.0], vec![700.0], vec![550.0]],
+    );
+    let names = ["A", "B", "C", "D", "E", "F"];
+    for (i, n) in names.iter().enumerate() {
+        let mut g = Glyph::new(n, &[0x41 + i as u32]);
+        for m in 0..4 {
+            let k = m as f64;
+            let mut l = square_layer(400.0 + 10.0 * i as f64 + 7.0 * k, 40.0, 200.0 + 11.0 * k, 600.0 + 3.0 * i as f64);
+            if i > 0 {
+                // mixed: a contour and a component
+                l.components = vec![Component::at("A", 250.0 + 5.0 * k, 10.0 * i as f64)];
+            }
+            g.layers.insert(m, l);
+        }
+        d.glyphs.push(g);
+    }
+    for m in 0..4 {
+        let ms = &mut d.masters[m];
+        ms.style_name = if m == 0 { "Fam".into() } else { format!("S{m}") };
+        for (a, b) in [("A", "B"), ("B", "A"), ("C", "D"), ("D", "C"), ("E", "F")] {
+            ms.kerning.insert((a.into(), b.into()), -30.0);
+        }
+        let rec = |id: i64, s: &str| {
+            Plist::Dict(vec![
+                ("nameID".into(), Plist::Int(id)),
+                ("platformID".into(), Plist::Int(3)),
+                ("encodingID".into(), Plist::Int(1)),
+                ("languageID".into(), Plist::Int(0x409)),
+                ("string".into(), Plist::s(s)),
+            ])
+        };
+        ms.info.extra.push(("openTypeNameRecords".into(), Plist::Array(vec![rec(300, "Weight"), rec(301, "Weight"), rec(302, "Weight"), rec(303, "Fam")])));
+    }
+    d.instances = vec![
+        Instance { family: None, style: "Fam".into(), ps_name: None, user_loc: vec![400.0] },
+        Instance { family: None, style: "Weight".into(), ps_name: Some("Fam-Weight".into()), user_loc: vec![700.0] },
+        Instance { family: None, style: "Fam".into(), ps_name: None, user_loc: vec![300.0] },
+    ];
+    d
+}
+
 /// A source family entry: name, design, compiler options.
 pub struct Src {
     pub name: &'static str,
     pub design: Design,
     pub opts: fcx::Opts,
     pub emit_ir: bool,
+}
+
+/// K1: the richest one-axis member of the kitchen family (checks::kitchen): sparse layer master,
+/// synthesised `.notdef`, quadratic + cubic outlines, nested / transformed / mixed composites, a
+/// non-exported component, group kerning that differs between masters, mark / mkmk / ligature
+/// anchors, GSUB + GPOS feature code with `table GDEF` / `table name`, vertical metrics, two
+/// overlapping designspace rules, named instances — so that (nearly) every kind of job runs.
+pub fn k1() -> Design {
+    let t = crate::kitchen::Toggles { layout: 3, notdef: 0, inv: 1, adv: 0, comps: 15, kern: 3, marks: 3, fea: 3, vert: 1, rules: 2, inst: 1 };
+    let mut d = crate::kitchen::build_design(&t);
+    d.family = "VrtK1".into();
+    d
+}
+
+/// K2: the same on two axes (four corner masters + a sparse layer master, hidden axis, axis <map>).
+pub fn k2() -> Design {
+    let t = crate::kitchen::Toggles { layout: 6, notdef: 1, inv: 1, adv: 1, comps: 15, kern: 3, marks: 3, fea: 3, vert: 1, rules: 2, inst: 1 };
+    let mut d = crate::kitchen::build_design(&t);
+    d.family = "VrtK2".into();
+    d
 }
 
 pub fn family() -> Vec<Src> {
@@ -113,5 +184,8 @@ pub fn family() -> Vec<Src> {
         Src { name: "J2", design: j2(), opts: fcx::Opts { no_prefer_simple: true, ..Default::default() }, emit_ir: false },
         Src { name: "J3", design: j1(), opts: fcx::Opts { skip_features: true, ..Default::default() }, emit_ir: false },
         Src { name: "J5", design: j1(), opts: fcx::Opts::default(), emit_ir: true },
+        Src { name: "K1", design: k1(), opts: fcx::Opts::default(), emit_ir: false },
+        Src { name: "K2", design: k2(), opts: fcx::Opts::default(), emit_ir: false },
+        Src { name: "N1", design: n1(), opts: fcx::Opts { no_prefer_simple: true, ..Default::default() }, emit_ir: false },
     ]
 }
